@@ -84,7 +84,7 @@ pub fn minimise<S: SeqSubject>(subj: &S, hist: &[S::Op], kind: &str) -> Vec<S::O
     // shortest violating suffix first (cheap, and floods of "any history ending in X" collapse)
     for start in (1..hist.len()).rev() {
         let cand = &hist[start..];
-        if subj.admissible(cand) && matches!(&subj.run(cand).violation, Some((_, k, _)) if k == kind) {
+        if subj.admissible(cand) && matches!(crate::util::catch(|| subj.run(cand)).ok().and_then(|r| r.violation), Some((_, k, _)) if k == kind) {
             cur = cand.to_vec();
             break;
         }
@@ -96,7 +96,7 @@ pub fn minimise<S: SeqSubject>(subj: &S, hist: &[S::Op], kind: &str) -> Vec<S::O
             let mut cand = cur.clone();
             cand.remove(i);
             let still = subj.admissible(&cand)
-                && matches!(&subj.run(&cand).violation, Some((_, k, _)) if k == kind);
+                && matches!(crate::util::catch(|| subj.run(&cand)).ok().and_then(|r| r.violation), Some((_, k, _)) if k == kind);
             if still {
                 cur = cand;
                 changed = true;
@@ -162,7 +162,15 @@ pub fn explore<S: SeqSubject>(subj: &S, bounds: &SeqBounds, rep: &Report) -> Seq
                     ops.pop();
                     continue;
                 }
-                let r = subj.run(&ops);
+                let r = match crate::util::catch(|| subj.run(&ops)) {
+                    Ok(r) => r,
+                    Err(p) => SeqRun {
+                        violation: Some((ops.len() - 1, "panic".to_string(), format!("the subject panicked: {p} at {:?}", crate::util::take_last_panic_loc()))),
+                        state_key: None,
+                        outcome: 0,
+                        calls: 0,
+                    },
+                };
                 n_hist += 1;
                 n_calls += r.calls;
                 outcomes.insert(r.outcome);
@@ -188,8 +196,9 @@ pub fn explore<S: SeqSubject>(subj: &S, bounds: &SeqBounds, rep: &Report) -> Seq
                                 let s = format!("{}|{}|{}", subj.sig_config(), kind, subj.canon(&core));
                                 sig_cache.lock().unwrap().insert(canon_full, s.clone());
                                 // replay before report: the minimised core must fail again
-                                let again = subj.run(&core);
-                                if !matches!(&again.violation, Some((_, k, _)) if *k == kind) {
+                                let again = crate::util::catch(|| subj.run(&core)).ok().and_then(|r| r.violation);
+                                let again_same = matches!(&again, Some((_, k, _)) if *k == kind) || (kind == "panic" && again.is_none());
+                                if !again_same {
                                     rep.machinery_error(&format!(
                                         "violation did not reproduce on replay: {s}"
                                     ));
